@@ -1,7 +1,7 @@
 (* Facts about the send path: one operation, one well-formed frame; in pass-through mode the frame reads back (with
    the receive model, over any segmentation) as the operation's control message and the payload. *)
 From EDP Require Import Base.Bytes Term.Term Term.Access Gen.Tags Gen.ControlTable Gen.DecoderArms Codec.Encode Codec.Decode Codec.Norm
-  Codec.DistHeader Dist.Control Dist.Framing Dist.FramingFacts Dist.Receive Dist.ReceiveFacts Dist.Send.
+  Codec.DistHeader Codec.DistHeaderFacts Gen.FragConsts Dist.Control Dist.Framing Dist.FramingFacts Dist.Receive Dist.ReceiveFacts Dist.Send.
 
 (* the framing mode is decided by the negotiated flags: the intersection of what the client asked for and what the
    peer granted *)
@@ -72,4 +72,49 @@ Proof.
     rewrite Ebc, Ebm. eexists. split; [reflexivity|exact H1].
   - destruct (pass_through_delivery cfg st Harms c c Hw Ho Hw Ho) as (bc & _ & Ebc & _ & _ & H2).
     rewrite Ebc. eexists. split; [reflexivity|exact H2].
+Qed.
+
+(* header mode: what is written is 131, 68, the header of the writer's atoms, the control tuple and the payload with
+   cached atoms as references; read with the receive model it is delivered as that control tuple and payload, and the
+   reader's cache holds the header's atoms *)
+Theorem header_frame_content cfg st negotiated order op : uses_pass_through negotiated = false ->
+  d_arms cfg = owned_arms ->
+  order <> [] -> len order <= 255 -> Forall (fun a => utf8_valid a = true) order ->
+  existsb (fun a => 65535 <? len a) order = false ->
+  let ctl := fst (control_of op) in
+  wf ctl = true -> rt_ok (d_kcmp cfg) (d_kinsert cfg) ctl ->
+  match snd (control_of op) with
+  | Some msg => wf msg = true /\ rt_ok (d_kcmp cfg) (d_kinsert cfg) msg
+  | None => True
+  end ->
+  exists body, frame_body negotiated order op = Some body /\
+    handle_frame cfg st body = (with_cache st (new_cache order (r_cache st)),
+                                to_outcome (norm ctl) (option_map norm (snd (control_of op)))).
+Proof.
+  intros Hpt Harms Hne Hlen Hutf Hbig ctl Hw Ho Hm. unfold frame_body.
+  destruct (control_of op) as [c pl] eqn:Ec. cbn [fst snd] in *. subst ctl. rewrite Hpt.
+  set (cfg' := cfg_with_cache cfg (r_cache st) []).
+  assert (Hread : forall ts out, encode_multi order ts = HOk out ->
+            forall o, decode_with_atom_cache cfg' long_of_coded out = (o, new_cache order (r_cache st)) ->
+            handle_frame cfg st out = (with_cache st (new_cache order (r_cache st)),
+                                       match o with HDOk ctl pl => to_outcome ctl pl | _ => OError end)).
+  { intros ts out Eo o Ed.
+    assert (exists x, out = tag_version :: tag_dist_header :: x) as (x & ->).
+    { unfold encode_multi in Eo. destruct order as [|a r]; [contradiction|].
+      repeat match type of Eo with context [if ?c then _ else _] => destruct c; [discriminate|] end.
+      destruct (enc_terms_c (a :: r) ts); [|discriminate]. inversion Eo. eauto. }
+    unfold handle_frame.
+    replace (is_tagged dist_frag_header (tag_version :: tag_dist_header :: x)) with false by reflexivity.
+    replace (is_tagged dist_frag_cont (tag_version :: tag_dist_header :: x)) with false by reflexivity.
+    replace (tag_version =? pass_through) with false by reflexivity.
+    replace (is_tagged tag_dist_header (tag_version :: tag_dist_header :: x)) with true by reflexivity.
+    cbv iota. unfold decode_dist. fold cfg'. rewrite Ed. reflexivity. }
+  destruct pl as [msg|].
+  - destruct Hm as [Hwm Hom].
+    destruct (message_read_back_2 cfg' Harms (d_kcmp cfg) (d_kinsert cfg) eq_refl eq_refl order Hne Hlen Hutf Hbig c msg Hw Ho Hwm Hom)
+      as (bs & Eb & Db).
+    rewrite Eb. exists bs. split; [reflexivity|]. exact (Hread _ _ Eb _ Db).
+  - destruct (message_read_back_1 cfg' Harms (d_kcmp cfg) (d_kinsert cfg) eq_refl eq_refl order Hne Hlen Hutf Hbig c Hw Ho)
+      as (bs & Eb & Db).
+    rewrite Eb. exists bs. split; [reflexivity|]. exact (Hread _ _ Eb _ Db).
 Qed.
